@@ -41,6 +41,9 @@ def run(ck, ctx):
                      "file at its first undecodable entry, and the per-file recovery loop neither returns on an unreadable file nor ends "
                      "before the last file (a write reported durable lives in *some* file: a recovery that gives up at a damaged "
                      "neighbour loses it) - shared with C10 R10.1 / R10.3")
+    ck.rule("R09.10", "truncation never deletes an fsynced entry that has not been streamed: every WalStore::delete in truncate_before is "
+                      "guarded by `not the active file` and by `max over ALL entries of the file <= the streamed mark` (append order is "
+                      "arrival order of 16 independent shard clocks, not stamp order: the last entry is not the newest) - shared with C10 R10.4")
     for cfg in ctx.configs:
         prog = ctx.prog(cfg)
         ck.configs.append(cfg)
@@ -53,10 +56,14 @@ def run(ck, ctx):
         from . import c10
         c10.r106(ck, prog, cfg, "R09.6")
         ck.fn_count += len(prog.fns)
+        from . import c10 as _c10b
+        from .core import Alias as _AliasB
+        _c10b._r104(_AliasB(ck, "R10.4", "R09.10"), prog, cfg)
         from . import c10 as _c10
         from .core import Alias as _Alias
         _c10._r101(_Alias(ck, "R10.1", "R09.9", skip=("R10.2",)), prog, cfg)
         _c10._r103(_Alias(ck, "R10.3", "R09.9"), prog, cfg)
+        _c10.r109(ck, prog, cfg, "R09.9")
         _c10.file_loop_rule(ck, prog, cfg, "R09.9")
 
 
